@@ -356,8 +356,8 @@ def run(ctx):
     for _ in range(N // 2):
         n = rng.randint(1, 3)
         nz = rng.randint(1, 2)
-        p = st.gen_leaf(rng, n, True)
-        zs = [st.gen_leaf(rng, nz, True) for _ in range(n)]
+        p = st.gen_leaf(rng, n, True, tiny=False)           # products of tiny coefficients are not float-exact
+        zs = [st.gen_leaf(rng, nz, True, tiny=False) for _ in range(n)]
         comps.append({'p': p, 'zs': zs})
     r_g = correspond(ctx, 'grad', fcases, impl_grad, lambda c: {'op': 'calc.grad', 't': st.strip_types(c['t'])},
                      nontrivial=lambda c, o: True)
